@@ -79,3 +79,30 @@
 ;;;---
 (let ((x (j 20))) (note 'not-reached) x)
 (reverse tr)
+;;;===
+# 6. the error is raised INSIDE the receiver of call/cc: the continuation's frame is on the stack when the form dies
+#    (its mark is still open); the later evaluations resume (+ 1 []) twice
+(define k #f)
+(define trace '())
+;;;---
+(+ 1 (call/cc (lambda (c) (set! k c) (error "boom"))))
+;;;---
+(set! trace (cons (k 41) trace))
+;;;---
+(set! trace (cons (k 99) trace))
+;;;---
+(list 'resumed-twice (reverse trace))
+;;;===
+# 7. the same under two winds and inside a procedure called by the receiver; invoked from inside a wind and a handler
+(define tr '())
+(define (note x) (set! tr (cons x tr)) x)
+(define k #f)
+(define (boom x) (car x))
+;;;---
+(dynamic-wind (lambda () (note 'in1)) (lambda () (dynamic-wind (lambda () (note 'in2)) (lambda () (+ 1 (call/cc (lambda (c) (set! k c) (note 'captured) (boom 5))))) (lambda () (note 'out2)))) (lambda () (note 'out1)))
+;;;---
+(dynamic-wind (lambda () (note 'in3)) (lambda () (+ 10 (k 1))) (lambda () (note 'out3)))
+;;;---
+(call-with-exception-handler (lambda (e) (k 2)) (lambda () (boom 6)))
+;;;---
+(reverse tr)
